@@ -126,6 +126,16 @@ def classify(d: Path, max_gen: int):
                 continue
             except ValueError:
                 pass
+        if WRITER[0].endswith(".run"):
+            # a whole run writes checkpoints whose text depends on the run's state: complete = parses as the JSON list
+            # a checkpoint is (json.dump output cut anywhere before its end does not parse)
+            try:
+                if isinstance(json.loads(txt), list):
+                    st += "C"
+                    gens[p] = -1
+                    continue
+            except ValueError:
+                pass
         st += "T"
     return st, gens
 
@@ -275,7 +285,8 @@ def run_write(d: Path, gen: int, kill_after: int | None, flags=None, fail_at: in
     return events, tail
 
 
-WRITER = ["save_parameters"]  # or "Optimizer.save_full_state" / "MCMC.save_full_state"
+WRITER = ["save_parameters"]  # or "Optimizer.save_full_state" / "MCMC.save_full_state" / "Optimizer.run" / "MCMC.run"
+RUN_ITERS = [1]  # iterations (= periodic checkpoints) of the `.run` writers
 
 
 def _caller_obj(kind: str, gen: int):
@@ -283,27 +294,36 @@ def _caller_obj(kind: str, gen: int):
     import torch
 
     ps = params(gen)
-    if kind.endswith(".from_json"):
-        # built exactly as torchtree builds them from a configuration file, checkpoint option = configured name
+    if kind.endswith(".from_json") or kind.endswith(".run"):
+        # built exactly as torchtree builds them from a configuration file, checkpoint option = configured name;
+        # the `.run` kinds checkpoint after every iteration and are driven through their public run()
+        runs = kind.endswith(".run")
         from torchtree.core.utils import process_objects
 
         n = (8 - gen) if VARIANT[0] == 0 else (1 + gen)
         x = [float(gen) + 0.125 * i for i in range(max(n, 1))]
+        if runs:
+            x = x[:1]  # Optimizer.run differentiates the loss: one element
         spec = [
             {"id": "joint", "type": "torchtree.distributions.Distribution", "distribution": "torch.distributions.Normal",
              "x": {"id": "x", "type": "torchtree.Parameter", "tensor": x, "dtype": "torch.float64"},
              "parameters": {"loc": 0.0, "scale": 1.0}},
-            {"id": "mcmc", "type": "torchtree.inference.mcmc.mcmc.MCMC", "joint": "joint", "iterations": 3,
+            {"id": "jj", "type": "torchtree.distributions.joint_distribution.JointDistributionModel",
+             "distributions": ["joint"]},  # a scalar target, as MCMC.run prints it
+            {"id": "mcmc", "type": "torchtree.inference.mcmc.mcmc.MCMC", "joint": "jj" if runs else "joint", "iterations": RUN_ITERS[0] if runs else 3,
              "operators": [{"id": "op", "type": "torchtree.inference.mcmc.operator.ScalerOperator", "parameters": ["x"],
-                            "weight": 1.0, "scaler": 0.5}], "checkpoint": ckname(os.getcwd())},
+                            "weight": 1.0, "scaler": 0.5}], "checkpoint": ckname(os.getcwd()),
+             **({"checkpoint_frequency": 1} if runs else {})},
             {"id": "opt", "type": "torchtree.optim.optimizer.Optimizer", "algorithm": "torch.optim.SGD",
-             "options": {"lr": 0.5}, "loss": "joint", "parameters": ["x"], "iterations": 3, "checkpoint": ckname(os.getcwd())},
+             "options": {"lr": 0.5}, "loss": "joint", "parameters": ["x"], "iterations": RUN_ITERS[0] if runs else 3,
+             "checkpoint": ckname(os.getcwd()), **({"checkpoint_frequency": 1} if runs else {})},
         ]
         dic = {}
         for o in spec:
             process_objects(o, dic)
         obj = dic["mcmc" if kind.startswith("MCMC") else "opt"]
-        obj._epoch = gen
+        if not runs:  # a run starts at its own first iteration
+            obj._epoch = gen
         return obj
     if kind == "Optimizer.save_full_state":
         from torchtree.optim.optimizer import Optimizer
@@ -322,7 +342,13 @@ def _caller_obj(kind: str, gen: int):
 
 def _caller_write(kind: str, gen: int):
     o = _caller_obj(kind, gen)
-    if kind.startswith("Optimizer"):
+    if kind.endswith(".run"):
+        import contextlib
+        import io
+
+        with contextlib.redirect_stdout(io.StringIO()):
+            o.run()  # the whole public run: start-up, every periodic checkpoint, shut-down
+    elif kind.startswith("Optimizer"):
         o.save_full_state(o.checkpoint)  # as Optimizer._run calls it
     else:
         o.save_full_state()
@@ -444,6 +470,10 @@ def explore_syscalls(ck: Check, writer: str, states, tmp_root: Path, worst: list
             if not calls:
                 ck.notes.append("strace saw no system call (ptrace not permitted?): syscall-level enumeration skipped")
                 return
+            if writer.endswith(".run") and tail.startswith("EXC"):
+                # the uninterrupted run raised: nothing about its checkpoints was observed
+                ck.mismatch("the algorithm's run() raised when driven as a writer", {"writer": writer, "from": st, "error": tail})
+                continue
             points, count = [], {}
             for c in calls:  # crash before the i-th invocation of each traced call, in program order
                 count[c] = count.get(c, 0) + 1
@@ -458,14 +488,14 @@ def explore_syscalls(ck: Check, writer: str, states, tmp_root: Path, worst: list
                 got_st, _g = classify(d2, gen + 1)
                 h2 = hist + [{"from": st, "kill_before_syscall": list(pt) if pt else None, "position": n,
                               "writer": writer, "variant": variant, "mode": "strace", "symlinked_name": LINK[0],
-                              "name_form": form}]
+                              "name_form": form, **({"run_iterations": RUN_ITERS[0]} if writer.endswith(".run") else {})}]
                 ck.case(key=("sys", writer, LINK[0], form, variant, st, tuple(str(h.get("kill_before_syscall")) for h in h2)),
                         sample={"writer": writer, "initial": st, "kill_before_syscall": pt, "syscalls": calls,
                                 "dir_after": got_st} if level == 1 and n == 2 else None,
                         bucket=f"{writer}/syscall{tag}/depth{level}")
                 if not safe_pred(got_st):
                     worst.append((h2, got_st))
-                else:
+                elif not writer.endswith(".run"):
                     gen_check(ck, None, worst, h2, st, gens0, got_st, _g, gen)
                 if level < depth and got_st not in seen and pt is not None:
                     seen.add(got_st)
@@ -880,6 +910,20 @@ def run(ck: Check):
                 explore_syscalls(ck, writer, ["CAA"], tmp_root, worst, 1)
             except Exception as e:  # noqa: BLE001
                 ck.mismatch("from_json-built writer could not be driven", {"writer": writer, "error": f"{type(e).__name__}: {e}"})
+        # the whole public run() of an algorithm as the writer: whatever it does to the three files at start-up, at
+        # each periodic checkpoint and at shut-down is inside the crash enumeration; started from "all three exist"
+        # and from the state a crash between the two renames leaves (name absent, .new and .old complete)
+        try:
+            RUN_ITERS[0] = 3 if ck.thorough() else 2
+            for writer in ("Optimizer.run", "MCMC.run"):
+                try:
+                    explore_syscalls(ck, writer, ["CCC", "ACC", "CAA"] if ck.thorough() else ["ACC", "CCC"], tmp_root, worst,
+                                     2 if ck.thorough() else 1, sample_writes=True)
+                except Exception as e:  # noqa: BLE001
+                    ck.mismatch("the algorithm's run() could not be driven as a writer",
+                                {"writer": writer, "error": f"{type(e).__name__}: {e}"})
+        finally:
+            RUN_ITERS[0] = 1
         # other spellings of the configured name (spaces / non-ASCII, nested relative, ./, absolute, names that
         # themselves end in .old / .new, no extension): from the state "all three exist" and from the state a crash
         # between the two renames leaves (name absent)
@@ -955,6 +999,7 @@ def replay(path: str) -> int:
     d = Path(tempfile.mkdtemp(prefix="c18r-"))
     WRITER[0] = hist[0].get("writer", "save_parameters")
     VARIANT[0] = hist[0].get("variant", 0)
+    RUN_ITERS[0] = hist[0].get("run_iterations", 1)
     if hist[0].get("symlinked_name"):
         LINK[0], CKNAME[0] = True, LINK_NAME
     elif hist[0].get("name_form"):
@@ -971,7 +1016,8 @@ def replay(path: str) -> int:
                 run_write(d, gen, h["kill_after"], flags=tuple(h["flags"]) if h.get("flags") else None, fail_at=h.get("fail_at"))
             st1, gens1 = classify(d, gen + 1)
             w = []
-            gen_check(None, None, w, [h], st0, gens0, st1, gens1, gen)
+            if not WRITER[0].endswith(".run"):
+                gen_check(None, None, w, [h], st0, gens0, st1, gens1, gen)
             print("after crash at", h.get("kill_after", h.get("kill_before_syscall")), "->", st1, gens1,
                   ("GENERATIONS: " + w[0][2]) if w else "")
             bad = bad or bool(w)
